@@ -561,13 +561,12 @@ func checkC09(c *Ctx) {
 						newOK = true
 					}
 				}
-			case *ast.IncDecStmt:
-				if x.Tok == token.INC && strings.HasSuffix(c.canon(info, x.X, nil), ".Count") {
-					incOK = true
-				}
-			case *ast.AssignStmt:
-				if x.Tok == token.ADD_ASSIGN && len(x.Lhs) == 1 && strings.HasSuffix(c.canon(info, x.Lhs[0], nil), ".Len") {
-					if p, err := env.fold(x.Rhs[0]); err == nil && p.String() == e.Name()+".length" {
+			case ast.Stmt:
+				if t, d, ok := c.incrementDelta(env, x); ok {
+					if strings.HasSuffix(t, ".Count") && d.String() == "1" {
+						incOK = true
+					}
+					if strings.HasSuffix(t, ".Len") && d.String() == e.Name()+".length" {
 						lenOK = true
 					}
 				}
